@@ -9,7 +9,7 @@ LEVEL = "model_checking"
 EXHAUSTIVE = True
 CHUNK = 1
 CASE_TIMEOUT = 600
-RULE = ("planted-fault exploration through the command line: a catalogue of 51 error kinds (link-time, compile-time, parse-time non-critical "
+RULE = ("planted-fault exploration through the command line: a catalogue of 53 error kinds (link-time, compile-time, parse-time non-critical "
         "and critical) and 10 warning kinds; every single fault at first/middle/last position of 3 base programs (one file, two linked "
         "files, fault inside an included file) x report formats x -W selections x output options; every pair of faults (thorough: every "
         "triple) ; configuration sweep: 14 representative programs x both report formats x 12 -W selections x 12 output options (with and "
